@@ -36,9 +36,9 @@ structure Obj where
 /-- What the library does when the user handler on top of it returns. -/
 inductive After where
   | none
-  | decDisp                    -- `ioc.Dispatched--` (inline completion wrapper, Cancel)
+  | decDisp                    -- `ioc.Dispatched--` (inline completion wrapper)
   | postDone                   -- `pending--` after a posted handler
-  | timerDone (obj : Nat)      -- repeating timers re-arm unless cancelled meanwhile
+  | timerDone (obj : Nat) (rep : Bool)   -- a repeating schedule re-arms unless cancelled meanwhile
   deriving Repr, DecidableEq, Inhabited
 
 inductive Phase where
@@ -119,9 +119,9 @@ def armTimer (w : World) (o : Obj) (op : Nat) (rep : Bool) : World :=
   let w := if o.evR then w else { w with pending := w.pending + 1 }
   setObj w { o with evR := true, hR := op, tstate := .scheduled, cancelled := false, rep := rep }
 
-/-- internal.Timer.Unset → poller.Del. -/
-def unsetTimer (w : World) (o : Obj) : World × Obj :=
-  if o.evR then ({ w with pending := w.pending - 1 }, { o with evR := false }) else (w, o)
+/-- internal.Timer.Unset → poller.Del: the pending count drops iff the timer was armed. The caller clears `evR`. -/
+def unsetPending (w : World) (o : Obj) : World :=
+  { w with pending := w.pending - (if o.evR then 1 else 0) }
 
 def push (w : World) (k : K) : World := { w with stack := k :: w.stack }
 
@@ -130,11 +130,11 @@ def applyAfter (w : World) (op : Nat) : After → World
   | .none => w
   | .decDisp => { w with dispatched := w.dispatched - 1 }
   | .postDone => { w with pending := w.pending - 1 }
-  | .timerDone k =>
+  | .timerDone k rep =>
     match getObj w k with
     | none => w
     | some o =>
-      if !o.rep then w
+      if !rep then w
       else if o.cancelled then setObj w { o with cancelled := false }
       else if o.tstate == .ready then armTimer w o op true       -- ScheduleOnce(repeat, ccb)
       else w                                                      -- ErrCancelled, ignored by ccb
@@ -156,7 +156,7 @@ def pollDispatch (w : World) (op : Nat) (rest : List K) : Option World :=
           if o.evR && o.hR == op then
             -- timer handler: DelRead by the poller, then `delete pendingTimers; state = ready; cb()`
             let w := setObj { w with pending := w.pending - 1 } { o with evR := false, tstate := .ready }
-            some { w with stack := .user op (.timerDone o.id) :: .pollCall true :: rest }
+            some { w with stack := .user op (.timerDone o.id (info.kind == .timerRep)) :: .pollCall true :: rest }
           else none
         else if info.kind.isRead then
           if o.evR && o.hR == op then
@@ -181,12 +181,12 @@ def cancelStep (w : World) (k : Nat) (phase : Phase) (rest : List K) (e : Ev) : 
       if canR then
         if op == o.hR && (res == .cancelled || res == .err) then
           let w := delRead w o
-          some { w with dispatched := w.dispatched + 1, stack := .user op .decDisp :: .cancelCall k .writes :: rest }
+          some { w with stack := .user op .none :: .cancelCall k .writes :: rest }
         else none
       else if canW then
         if op == o.hW && (res == .cancelled || res == .err) then
           let w := delWrite w o
-          some { w with dispatched := w.dispatched + 1, stack := .user op .decDisp :: .cancelCall k .done :: rest }
+          some { w with stack := .user op .none :: .cancelCall k .done :: rest }
         else none
       else none
     | .ret _ => if canR || canW then none else some { w with stack := rest }
@@ -194,8 +194,7 @@ def cancelStep (w : World) (k : Nat) (phase : Phase) (rest : List K) (e : Ev) : 
 
 def closeObj (w : World) (o : Obj) : World :=
   if o.kind == .timer then
-    let (w, o) := unsetTimer w o
-    setObj w { o with tstate := .closed }
+    setObj (unsetPending w o) { o with evR := false, tstate := .closed }
   else
     let w := delRead w o
     let o' := (getObj w o.id).getD o
@@ -265,8 +264,7 @@ def step (w : World) (e : Ev) : Option World :=
       if !isNil then none
       else if o.tstate == .closed then some { w with stack := rest }
       else
-        let (w, o) := unsetTimer w o
-        some { (setObj w { o with cancelled := true, tstate := .ready }) with stack := rest }
+        some { (setObj (unsetPending w o) { o with evR := false, cancelled := true, tstate := .ready }) with stack := rest }
   | .scheduledCall k :: rest, .ret (.bool b) =>
     match getObj w k with
     | none => none
